@@ -400,7 +400,159 @@ func drawCase(t *rapid.T, maxActs int) *Case {
 	return c
 }
 
+// ---------------------------------------------------------------- connection churn
+
+// ChurnCase: one file, one option string, handles whose pools keep no idle
+// connection, so every query opens a driver connection and closes it again:
+// the last Close of a cached file connection keeps overlapping with the Open
+// of the next one.  A second family of goroutines opens, queries and closes
+// whole handles on the same DSN.
+type ChurnCase struct {
+	Data       gen.DataSpec
+	Opt        int
+	Goroutines int
+	PerG       int
+	Handles    int
+	MaxOpen    int
+}
+
+func (c *ChurnCase) Summary() string {
+	return fmt.Sprintf("churn: %s opts=%q goroutines=%d x %d queries on a handle with MaxIdleConns(0) MaxOpenConns(%d), plus %d goroutines cycling sql.Open/Query/Close on the same DSN", c.Data.Summary(), optStrings[c.Opt], c.Goroutines, c.PerG, c.MaxOpen, c.Handles)
+}
+
+func churnOracle(c *ChurnCase) error {
+	dir := fix.CaseDir()
+	defer os.RemoveAll(dir)
+	rows := c.Data.Rows()
+	d := model.NewData(rows)
+	path, _, err := fix.Build(dir, rows, fix.WMemFile)
+	if err != nil {
+		return fmt.Errorf("INFRA: %v", err)
+	}
+	dsn := "file:" + path
+	if optStrings[c.Opt] != "" {
+		dsn += "?" + optStrings[c.Opt]
+	}
+	cols := d.Columns()
+	if len(cols) == 0 {
+		return nil
+	}
+	e := model.Not(model.Eq(cols[0], "\x01none"))
+	text := queryparser.QueryToString(&pb.Query{Expr: fix.ToPB(e)})
+	want := d.Query(e, nil)
+	one := func(db *sql.DB) error {
+		var got *fix.SQLRows
+		err := fix.Safe(func() error {
+			r, e := db.Query(text)
+			if e != nil {
+				return e
+			}
+			got, e = fix.ScanAll(r)
+			return e
+		})
+		if err != nil {
+			if fix.IsPanic(err) {
+				return err
+			}
+			return fmt.Errorf("query on an open handle failed: %v", err)
+		}
+		return fix.CheckRows(got, nil, want)
+	}
+	err = guarded("connection churn", func() error {
+		db, err := sql.Open("updog", dsn)
+		if err != nil {
+			return err
+		}
+		db.SetMaxIdleConns(0)
+		db.SetMaxOpenConns(c.MaxOpen)
+		start := make(chan struct{})
+		n := c.Goroutines + c.Handles
+		errs := make([]error, n)
+		var wg sync.WaitGroup
+		for g := 0; g < n; g++ {
+			wg.Add(1)
+			go func(g int) {
+				defer wg.Done()
+				<-start
+				for i := 0; i < c.PerG && errs[g] == nil; i++ {
+					if g < c.Goroutines {
+						errs[g] = one(db)
+						continue
+					}
+					h, err := sql.Open("updog", dsn)
+					if err != nil {
+						errs[g] = err
+						return
+					}
+					errs[g] = one(h)
+					if cerr := fix.Safe(h.Close); fix.IsPanic(cerr) && errs[g] == nil {
+						errs[g] = cerr
+					}
+				}
+			}(g)
+		}
+		close(start)
+		wg.Wait()
+		cerr := fix.Safe(db.Close)
+		for g, e := range errs {
+			if e != nil {
+				return fmt.Errorf("goroutine %d: %v", g, e)
+			}
+		}
+		if fix.IsPanic(cerr) {
+			return cerr
+		}
+		return nil
+	})
+	if err != nil {
+		return err
+	}
+	return released(path)
+}
+
+func runChurn(t interface{ Fatalf(string, ...any) }, c *ChurnCase) {
+	evid.Inflight(prop, "churn", c, c.Summary())
+	err := churnOracle(c)
+	evid.ClearInflight(prop, "churn")
+	if err != nil && strings.HasPrefix(err.Error(), "INFRA:") {
+		panic(err.Error())
+	}
+	evid.Note("churn_open_close_cycles", int64((c.Goroutines+c.Handles)*c.PerG))
+	evid.Case(true, c.Summary(), "connection-churn")
+	if err != nil {
+		if _, hung := err.(*hangError); hung {
+			evid.WriteCase(prop, "churn", c, c.Summary(), err)
+			evid.Flush()
+			fmt.Printf("HANG: %v\n", err)
+			os.Exit(3)
+		}
+		fix.Fail(t, prop, "churn", c, c.Summary(), err)
+	}
+}
+
+func drawChurn(t *rapid.T) *ChurnCase {
+	return &ChurnCase{
+		Data:       *gen.Explicit(t, gen.DataOpts{MaxRows: 6, IdentCols: true}),
+		Opt:        rapid.IntRange(0, len(optStrings)-1).Draw(t, "opt"),
+		Goroutines: rapid.IntRange(2, 12).Draw(t, "goroutines"),
+		PerG:       rapid.IntRange(100, 500).Draw(t, "perg"),
+		Handles:    rapid.IntRange(0, 4).Draw(t, "handles"),
+		MaxOpen:    rapid.SampledFrom([]int{0, 0, 2, 5}).Draw(t, "maxopen"),
+	}
+}
+
 func replay(cf *evid.CaseFile) error {
+	if cf.Sub == "churn" {
+		var c ChurnCase
+		if err := evid.Decode(cf.Gob, &c); err != nil {
+			return err
+		}
+		var err error
+		for i := 0; i < 10 && err == nil; i++ {
+			err = churnOracle(&c)
+		}
+		return err
+	}
 	var c Case
 	if err := evid.Decode(cf.Gob, &c); err != nil {
 		return err
@@ -415,6 +567,7 @@ func replay(cf *evid.CaseFile) error {
 func TestQuick(t *testing.T) {
 	fix.Pinned(t, prop, replay)
 	fix.Check(t, "history", 150, func(rt *rapid.T) { run(rt, drawCase(rt, 15)) })
+	fix.Check(t, "churn", 12, func(rt *rapid.T) { runChurn(rt, drawChurn(rt)) })
 }
 
 func TestThorough(t *testing.T) {
@@ -422,6 +575,7 @@ func TestThorough(t *testing.T) {
 		fix.Pinned(t, prop, replay)
 	}
 	fix.Check(t, "history", 1500, func(rt *rapid.T) { run(rt, drawCase(rt, 40)) })
+	fix.Check(t, "churn", 80, func(rt *rapid.T) { runChurn(rt, drawChurn(rt)) })
 }
 
 func TestReplay(t *testing.T) {
